@@ -222,12 +222,33 @@ def f_rule_siblings(ops, consts=(0, 1)):
                 forms.append((op, V(0), c))
                 forms.append((op, c, V(0)))
             forms.append((op, V(0), V(1)))
+            forms.append((op, V(0), V(0)))
     for a in forms:
         for b in forms:
             if a is b:
                 continue
             out.append(" ".join(compile_exprs([a, b], 2)))
     return out
+
+
+def f_rule_triples(pairs, consts=(0, 1), extras=("ADD7", "ISZERO")):
+    """outer(inner(a, b), inner(a', b')) where the two inner terms share an operand, and one of the inner results is read
+    by one more instruction (its result stays on the stack, the inner results do not): context rules that rewrite an
+    inner instruction in place must check that nobody else reads it"""
+    out = []
+    for outer, inner in pairs:
+        if _arity(outer) != 2 or _arity(inner) != 2:
+            continue
+        i1 = (inner, V(0), V(1))
+        seconds = [(inner, V(0), V(2)), (inner, V(2), V(1)), (inner, V(0), consts[-1]), (inner, consts[-1], V(1)), (inner, V(1), V(0))]
+        for i2 in seconds:
+            for top in ((outer, i1, i2), (outer, i2, i1)):
+                for which in (i1, i2):
+                    for ex in extras:
+                        e = ("ADD", which, 7) if ex == "ADD7" else ("ISZERO", which)
+                        out.append(" ".join(compile_exprs([e, top], 3)))
+                        out.append(" ".join(compile_exprs([top, e], 3)))
+    return list(dict.fromkeys(out))
 
 
 def deep_stack_blocks():
@@ -241,6 +262,28 @@ def deep_stack_blocks():
             out.append("SWAP%d %s" % (k, op))
             out.append("DUP%d SWAP1 %s SWAP%d" % (k, op, k - 1))
         out.append("DUP16 DUP16 %s DUP16 %s" % (op, op))
+        # a deep value fetched twice in a row as its last uses, with the top already in place
+        for k in (15, 16):
+            out.append("DUP%d DUP1 %s SWAP%d POP" % (k, op, k))
+            out.append("DUP%d DUP1 %s SWAP%d POP" % (k, op, k - 1))
+            out.append("DUP%d DUP1 %s" % (k, op))
+            out.append("DUP%d DUP%d %s SWAP%d POP" % (k, k, op, k))
+    for k in (15, 16):
+        out.append("DUP%d DUP1 SSTORE" % k)
+        out.append("DUP%d DUP1 MSTORE SWAP%d POP" % (k, k - 1))
+        out.append("DUP%d DUP1 KECCAK256 SWAP%d POP" % (k, k))
+    return out
+
+
+def f_squares(ops):
+    """one instruction reading the same initial element twice, the element surviving at every position of the final stack"""
+    out = []
+    for op in ops:
+        if _arity(op) != 2:
+            continue
+        for tail in ("", "SWAP1", "SWAP2", "SWAP1 SWAP2", "DUP2 DUP1 %s" % op, "DUP2 DUP1 %s SWAP1" % op, "SWAP1 DUP1 DUP1 %s" % op):
+            out.append(("DUP1 DUP1 %s %s" % (op, tail)).strip())
+            out.append(("DUP2 DUP1 %s %s" % (op, tail)).strip())
     return out
 
 
